@@ -1322,15 +1322,15 @@ class PrecisionManager:
                     self.ctx.prec = self.precfun(self.ctx.prec)
                 else:
                     self.ctx.dps = self.dpsfun(self.ctx.dps)
-                if self.normalize_output:
-                    v = f(*args, **kwargs)
-                    if type(v) is tuple:
-                        return tuple([+a for a in v])
-                    return +v
-                else:
-                    return f(*args, **kwargs)
+                v = f(*args, **kwargs)
             finally:
                 self.ctx.prec = orig
+            if self.normalize_output:
+                # round to the parent precision, i.e. after it is restored
+                if type(v) is tuple:
+                    return tuple([+a for a in v])
+                return +v
+            return v
         return g
     def __enter__(self):
         # a stack, so that one manager object can be entered again while
